@@ -30,7 +30,13 @@ UNKNOWN_KEYS = ['x', 'Length', 'LENGTH', 'line-endings', 'Line_Endings',
                 'ENCODING', 'Encoding', 'Indent', 'lengthx', 'xlength',
                 'len', 'Format', 'Version', 'Type', 'MimeType', 'mime-type',
                 'x-vendor_opt9', 'a', 'Z', 'a-', 'a_', 'encodings',
-                'line_ending', 'indent2', 'k' * 200]
+                'line_ending', 'indent2', 'k' * 200,
+                # names of reader internals / record fields / python
+                # parameters: still just unknown options
+                'keep_bytes', 'preserve_trailing_newline', 'self', 'fp',
+                'newline', 'data', 'content', 'section', 'level', 'line',
+                'options', 'text', 'metadata', 'diff', 'linenum', 'chunk_size',
+                'valid_sections', 'c', 'cls', 'kwargs']
 VALUES = ['v', '0', '7', '-3', '123456789012345678901234567890', 'text/x',
           'a.b_c-d/e', '1.0', 'utf-8', 'dos', 'json', 'True', 'v' * 2000,
           '-', '.', '/', '_', '00', '1e3', '0x1']
@@ -48,6 +54,12 @@ def extend_header(header, extras, position):
 def conv(v):
     b = v.encode('ascii')
     return int(v) if hg.is_decimal(b) else v
+
+
+ELSEWHERE = {'preamble': ['type', 'format', 'version'],
+             'meta': ['type', 'mimetype', 'version'],
+             'diff': ['mimetype', 'format', 'version'],
+             'container': ['mimetype', 'type', 'format']}
 
 
 def check_extension(data, layout, base_recs, plan, obs):
@@ -114,6 +126,21 @@ def run(ctx):
             check_extension(data, layout, base,
                             {hi: ([(key, rng.choice(VALUES))], position)},
                             obs)
+        # options that exist for OTHER section kinds are unknown here
+        hi = rng.randrange(len(layout))
+        kind = layout[hi].get('kind', 'container')
+        if layout[hi]['id'] == 'diffx':
+            cands = ['mimetype', 'type', 'format']
+        else:
+            cands = ELSEWHERE.get(kind, [])
+        cands = [c for c in cands if c not in layout[hi]['options']]
+        if cands:
+            key = rng.choice(cands)
+            val = {'type': 'text', 'format': 'json', 'version': '1.0',
+                   'mimetype': 'text/plain', 'indent': '4', 'length': '3',
+                   'line_endings': 'unix'}[key]
+            check_extension(data, layout, base,
+                            {hi: ([(key, val)], rng.randint(0, 5))}, obs)
         # several headers at once, 1-3 extras each
         plan = {}
         for i in rng.sample(range(len(layout)),
@@ -122,6 +149,20 @@ def run(ctx):
             plan[i] = ([(kk, rng.choice(VALUES)) for kk in keys],
                        rng.randint(0, 6))
         check_extension(data, layout, base, plan, obs)
+        # pad one header so that its total length straddles read-ahead block
+        # boundaries (95..98, 191..194, 287..290 bytes before the newline)
+        hi = rng.randrange(len(layout))
+        hlen = layout[hi]['hlen']
+        eol = 2 if data[layout[hi]['hoff']:layout[hi]['hoff'] + hlen] \
+            .endswith(b'\r\n') else 1
+        for target in (95, 96, 97, 98, 191, 192, 193, 287, 288, 289):
+            need = target - (hlen - eol) - len(', q=')
+            if layout[hi]['options'] == {}:
+                need = target - (hlen - eol) - len(' q=')
+            if need >= 1:
+                check_extension(data, layout, base,
+                                {hi: ([('q', 'w' * need)],
+                                      rng.randint(0, 5))}, obs)
         # all headers, same key (a shared options dict would show up here)
         check_extension(data, layout, base,
                         {i: ([('x-all', str(i))], 0)
